@@ -6,6 +6,7 @@ import (
 	"flag"
 	"fmt"
 	"os"
+	"os/exec"
 	"runtime"
 	"strconv"
 	"strings"
@@ -35,6 +36,8 @@ func main() {
 		os.Exit(cmdBatch(os.Args[2:]))
 	case "replay":
 		os.Exit(cmdReplay(os.Args[2:]))
+	case "replay-child":
+		os.Exit(cmdReplayChild(os.Args[2:]))
 	case "selftest":
 		os.Exit(cmdSelftest(os.Args[2:]))
 	case "worker":
@@ -138,10 +141,51 @@ func cmdBatch(args []string) int {
 	return 0
 }
 
+// cmdReplay runs the replay in a child process so that a process-fatal outcome
+// (log.Fatal, out of memory, stack overflow) is observed rather than suffered.
 func cmdReplay(args []string) int {
 	if len(args) < 1 {
 		usage()
 	}
+	self, err := os.Executable()
+	if err != nil {
+		fmt.Fprintln(os.Stderr, err)
+		return 2
+	}
+	cmd := exec.Command(self, "replay-child", args[0])
+	var sb strings.Builder
+	cmd.Stdout = &sb
+	cmd.Stderr = &sb
+	runErr := cmd.Run()
+	out := sb.String()
+	if strings.Contains(out, "REPRODUCED ") || strings.Contains(out, "NOT-REPRODUCED ") || strings.Contains(out, "DIFFERENT ") {
+		fmt.Print(out)
+		if ee, ok := runErr.(*exec.ExitError); ok {
+			return ee.ExitCode()
+		}
+		if runErr != nil {
+			return 2
+		}
+		return 0
+	}
+	// the child died without a verdict
+	b, rerr := os.ReadFile(args[0])
+	var rf runner.ReplayFile
+	if rerr != nil || json.Unmarshal(b, &rf) != nil {
+		fmt.Print(out)
+		return 2
+	}
+	lines := strings.Split(strings.TrimSpace(out), "\n")
+	last := lines[len(lines)-1]
+	if len(last) > 200 {
+		last = last[:200]
+	}
+	fmt.Printf("REPRODUCED property=%s clause=fatal detail=the process died while replaying (%v): %s\n", rf.Property, runErr, last)
+	fmt.Printf("VIOLATION property=%s replay=%s\n", rf.Property, args[0])
+	return 1
+}
+
+func cmdReplayChild(args []string) int {
 	rf, v, err := runner.ReplayWithWatchdog(args[0])
 	if err != nil {
 		fmt.Fprintf(os.Stderr, "replay: %v\n", err)
